@@ -6,7 +6,7 @@ PROP = "C31"
 META = {
     "level": "fault_enumeration",
     "text": "Faults.tla composes the abstract machine with an environment action that delivers one interrupt at an arbitrary step; TLC runs "
-            "7 workloads (recursion, findall, nested catch, assert loop, negation/if-then-else, retract) with the fault at every step, checks "
+            "9 workloads (recursion, findall, nested catch, assert loop, negation/if-then-else, retract, goals suspended by freeze/2 woken by a head or an inline unification) with the fault at every step, checks "
             "machine consistency in every terminal state and yields the set of admissible outcomes. The real machine runs the same workloads "
             "with the interrupt flag raised exactly when the n-th instruction is dispatched (verif-hooks), for every n in the dense range and "
             "strided beyond; each observed outcome (answers, caught/uncaught ball, side-effect log, dynamic database) must be an admissible "
